@@ -12,6 +12,7 @@ Section Spec.
     | TVar x => e x
     | TMap m t' => apply_map h m (tval t' e)
     | TFlat id _ => e id
+    | TConcat id _ => e id
     end.
 
   Fixpoint sat (c : scond) (e : env) : bool :=
@@ -40,13 +41,16 @@ Section Spec.
 
   (* what a query ranges over: variables with their domains and flatten nodes with their (dependent)
      element lists, in dependency order *)
-  Inductive binder := BVar (x : key) | BFlat (id : key) (t : term).
+  Inductive binder := BVar (x : key) | BFlat (id : key) (t : term)
+                    | BConcat (id : key) (x : key) (t : term).   (* concatenate(t), t over the one variable x *)
 
   Fixpoint envs (bs : list binder) (e : env) : list env :=
     match bs with
     | [] => [e]
     | BVar x :: bs' => flat_map (fun v => envs bs' (upd e x v)) (dom x)
     | BFlat id t :: bs' => flat_map (fun v => envs bs' (upd e id v)) (elements (tval t e))
+    | BConcat id x t :: bs' =>
+        envs bs' (upd e id (VTup (flat_map (fun v => atoms_of (tval t (upd e x v))) (dom x))))
     end.
 
   Definition env0 : env := fun _ => VA ANone.
